@@ -13,6 +13,7 @@
 -/
 import KavaVerif.Proofs.Pricefeed
 import KavaVerif.Generated.C18Pricefeed
+import KavaVerif.Proofs.TieFnPricefeed
 set_option linter.unusedSimpArgs false
 set_option linter.unusedVariables false
 
@@ -390,5 +391,18 @@ theorem C18_source_shape :
     KV.Gen.c18MeanBody = Shape.meanBody ∧ KV.Gen.c18EndBlockerCalls = Shape.endBlockerCalls ∧
     KV.Gen.c18PriceReaders = Shape.priceReaders ∧ KV.Gen.c18GateCalls = Shape.gateCalls := by
   decide
+
+/-! ## source tie (regenerated)
+
+    `GoFn.Pricefeed.*` (Generated/FnPricefeed.lean) is regenerated on every run from the Go source of
+    x/pricefeed/keeper/keeper.go by the function translator (tools/extract/fn*.go); the theorem says that the
+    regenerated definition IS the hand-written model function.  Proof: Proofs/TieFnPricefeed.lean. -/
+
+/-- `calculateMeanPrice` (the even-length branch of the median) on the two `Price` mantissas = `mean`, and it never
+    panics -/
+theorem C18_source_tie_calculateMeanPrice (a b : Int) :
+    GoFn.Pricefeed.calculateMeanPrice_translated = true ∧
+    GoFn.Pricefeed.calculateMeanPrice ⟨⟨a⟩⟩ ⟨⟨b⟩⟩ = Go.R.ok ⟨mean a b⟩ :=
+  TieFn.pricefeed_calculateMeanPrice a b
 
 end KV.PF
